@@ -93,6 +93,13 @@ NOT_YET = {
 ALL = ["C%02d" % i for i in range(1, 21)]
 
 
+CLAIMED["C07"] = {
+    "technique": "Coq proofs about the macro stage of the core model (Core.expand): the recursion check is a complete cycle detector on the paste graph for every macro table (cycle_rejected, acyclic_accepted, has_cycle_complete), terminates within the fuel expand passes, expansion terminates, expansion equals expansion of the inlined forest (paste_is_inlining), an unused macro is inert, duplicates and undefined names are rejected at the stated directive; tied to the code by extracted-model vs implementation correspondence at the expand stage and by metamorphic runs (document vs textually inlined document, full pipeline)",
+    "text": "20 theorems for all forests / macro tables on the hand model coq/model/Core.v; the model is compared with the implementation's expanded forest on generated documents every run, and the catalog of each accepted document is compared with the catalog of its textual inlining.",
+    "note": "Trusted: Coq kernel, extraction + OCaml driver, harness, the generator's textual inliner. Theorems speak of directive forests; the step from tree-level to textual inlining is covered by the metamorphic run, not by proof. Known finding: order of userEnums.",
+    "design_ref": "7 (C07)",
+}
+
 def main():
     checks = []
     for pid in ALL:
